@@ -29,6 +29,7 @@ class World:
         I, st = V.I, V.st
         self.V, self.I, self.st = V, I, st
         self.vec = vectorized
+        self.schedule = V.choose(["at-submit", "when-awaited"], "pool-schedule")
         # vectorized unit: key "b" is fixed (already in both libraries) to keep the path count manageable
         free = KEYS if not vectorized else ["a"]
         self.in_src = {k: (V.choose([True, False], f"{k}-in-source") if k in free else True) for k in KEYS}
@@ -161,19 +162,45 @@ def install(w: World):
     w.job = Obj(obj, {"name": "jobname", "__doc__": "", "prepare": Builtin("prepare", prepare), "process": Builtin("process", process)}, tag="job")
     # ---- executor
     Ex = mkcls("ThreadPoolExecutor")
+    # the pool's schedule: a task may run as soon as it is submitted or only when its result is awaited (or at shutdown) -- both
+    # extremes are explored; a callable that captures a loop variable by reference shows under the second
+    pending = []
     Ex.ns["__pyvc_new__"] = lambda i, cls, a, k: Obj(Ex, {})
     Ex.ns["__enter__"] = Builtin("enter", lambda i, a, k: a[0])
-    Ex.ns["__exit__"] = Builtin("exit", lambda i, a, k: False)
+
+    def run_pending(i):
+        while pending:
+            pending.pop(0)()
+
+    def ex_exit(i, a, k):
+        run_pending(i)
+        return False
+    Ex.ns["__exit__"] = Builtin("exit", ex_exit)
 
     def submit(i, a, k):
-        fn, args = a[1], a[2:]
-        r = i.call(fn, list(args), {})
-        return Obj(obj, {"result": Builtin("result", lambda i2, a2, k2: r)})
+        fn, args, kw_ = a[1], list(a[2:]), dict(k)
+        box = {}
+
+        def task():
+            if "r" not in box:
+                box["r"] = i.call(fn, list(args), kw_)
+        if w.schedule == "at-submit":
+            task()
+        else:
+            pending.append(task)
+
+        def result(i2, a2, k2):
+            if "r" not in box:
+                # tasks are started in submission order by a pool; awaiting one lets the earlier ones run first
+                run_pending(i2)
+            return box["r"]
+        return Obj(obj, {"result": Builtin("result", result)})
     Ex.ns["submit"] = Builtin("submit", submit)
     I.ext_models["concurrent.futures.ThreadPoolExecutor"] = Ex
 
     def run_local(I_, fv, a, k):
-        s = stem_of(a[0])
+        # (arguments by position or by name: _run_local(ifn, cwd, odir, sdir))
+        s = stem_of(a[0] if a else k["ifn"])
         w.runs.append(s)
         # a fresh run replaces the output record: hash of the input that was run, new exit code
         w.out[s] = {"exists": True, "loadable": True, "hash": w.H.get(s, Opaque("obj:?")), "exitcode": w.run_rc.get(s, 1)}
